@@ -155,19 +155,19 @@ fn layout() -> String {
 	type T32 = IMAGE_TLS_DIRECTORY32; type T64 = IMAGE_TLS_DIRECTORY64;
 	type L32 = IMAGE_LOAD_CONFIG_DIRECTORY32; type L64 = IMAGE_LOAD_CONFIG_DIRECTORY64;
 	type D = IMAGE_DEBUG_DIRECTORY;
-	format!("ok tls32={}/{}:{}:{}:{}:{}:{}:{} tls64={}/{}:{}:{}:{}:{}:{}:{} lc32={}/{}:{}:{}:{} lc64={}/{}:{}:{}:{} dbg={}/{}:{}:{}:{}:{}:{}:{}:{} cv20={}/{}:{}:{}:{} cv70={}/{}:{}:{} misc={}/{}:{}:{}:{} rf={}/{}:{}:{}:{} uw={}/{}:{}:{}:{}:{} uc={}/{} cert={}/{}:{}:{}:{} va32={}/{} va64={}/{}",
+	format!("ok tls32={}/{}:{}:{}:{}:{}:{}:{} tls64={}/{}:{}:{}:{}:{}:{}:{} lc32={}/{}:{}:{}:{} lc64={}/{}:{}:{}:{} dbg={}/{}:{}:{}:{}:{}:{}:{}:{}:{}:{} cv20={}/{}:{}:{}:{} cv70={}/{}:{}:{} misc={}/{}:{}:{}:{} rf={}/{}:{}:{}:{} uw={}/{}:{}:{}:{}:{} uc={}/{} cert={}/{}:{}:{}:{}:{} va32={}/{} va64={}/{}",
 		size_of::<T32>(), align_of::<T32>(), offset_of!(T32, StartAddressOfRawData), offset_of!(T32, EndAddressOfRawData), offset_of!(T32, AddressOfIndex), offset_of!(T32, AddressOfCallBacks), offset_of!(T32, SizeOfZeroFill), offset_of!(T32, Characteristics),
 		size_of::<T64>(), align_of::<T64>(), offset_of!(T64, StartAddressOfRawData), offset_of!(T64, EndAddressOfRawData), offset_of!(T64, AddressOfIndex), offset_of!(T64, AddressOfCallBacks), offset_of!(T64, SizeOfZeroFill), offset_of!(T64, Characteristics),
 		size_of::<L32>(), align_of::<L32>(), offset_of!(L32, SecurityCookie), offset_of!(L32, SEHandlerTable), offset_of!(L32, SEHandlerCount),
 		size_of::<L64>(), align_of::<L64>(), offset_of!(L64, SecurityCookie), offset_of!(L64, SEHandlerTable), offset_of!(L64, SEHandlerCount),
-		size_of::<D>(), align_of::<D>(), offset_of!(D, TimeDateStamp), offset_of!(D, Version), offset_of!(D, Type), offset_of!(D, SizeOfData), offset_of!(D, AddressOfRawData), offset_of!(D, PointerToRawData), IMAGE_DEBUG_TYPE_CODEVIEW * 10000 + IMAGE_DEBUG_TYPE_MISC * 100 + IMAGE_DEBUG_TYPE_POGO,
+		size_of::<D>(), align_of::<D>(), offset_of!(D, Characteristics), offset_of!(D, TimeDateStamp), offset_of!(D, Version) + offset_of!(IMAGE_VERSION<u16>, Major), offset_of!(D, Version) + offset_of!(IMAGE_VERSION<u16>, Minor), offset_of!(D, Type), offset_of!(D, SizeOfData), offset_of!(D, AddressOfRawData), offset_of!(D, PointerToRawData), IMAGE_DEBUG_TYPE_CODEVIEW * 10000 + IMAGE_DEBUG_TYPE_MISC * 100 + IMAGE_DEBUG_TYPE_POGO,
 		size_of::<IMAGE_DEBUG_CV_INFO_PDB20>(), align_of::<IMAGE_DEBUG_CV_INFO_PDB20>(), offset_of!(IMAGE_DEBUG_CV_INFO_PDB20, Offset), offset_of!(IMAGE_DEBUG_CV_INFO_PDB20, TimeDateStamp), offset_of!(IMAGE_DEBUG_CV_INFO_PDB20, Age),
 		size_of::<IMAGE_DEBUG_CV_INFO_PDB70>(), align_of::<IMAGE_DEBUG_CV_INFO_PDB70>(), offset_of!(IMAGE_DEBUG_CV_INFO_PDB70, Signature), offset_of!(IMAGE_DEBUG_CV_INFO_PDB70, Age),
 		size_of::<IMAGE_DEBUG_MISC>(), align_of::<IMAGE_DEBUG_MISC>(), offset_of!(IMAGE_DEBUG_MISC, DataType), offset_of!(IMAGE_DEBUG_MISC, Length), offset_of!(IMAGE_DEBUG_MISC, Unicode),
 		size_of::<RUNTIME_FUNCTION>(), align_of::<RUNTIME_FUNCTION>(), offset_of!(RUNTIME_FUNCTION, BeginAddress), offset_of!(RUNTIME_FUNCTION, EndAddress), offset_of!(RUNTIME_FUNCTION, UnwindData),
 		size_of::<UNWIND_INFO>(), align_of::<UNWIND_INFO>(), offset_of!(UNWIND_INFO, VersionFlags), offset_of!(UNWIND_INFO, SizeOfProlog), offset_of!(UNWIND_INFO, CountOfCodes), offset_of!(UNWIND_INFO, FrameRegisterOffset),
 		size_of::<UNWIND_CODE>(), align_of::<UNWIND_CODE>(),
-		size_of::<WIN_CERTIFICATE>(), align_of::<WIN_CERTIFICATE>(), offset_of!(WIN_CERTIFICATE, dwLength), offset_of!(WIN_CERTIFICATE, wRevision), offset_of!(WIN_CERTIFICATE, wCertificateType),
+		size_of::<WIN_CERTIFICATE>(), align_of::<WIN_CERTIFICATE>(), offset_of!(WIN_CERTIFICATE, dwLength), offset_of!(WIN_CERTIFICATE, wRevision), offset_of!(WIN_CERTIFICATE, wCertificateType), offset_of!(WIN_CERTIFICATE, bCertificate),
 		size_of::<pelite::pe32::Va>(), align_of::<pelite::pe32::Va>(), size_of::<pelite::pe64::Va>(), align_of::<pelite::pe64::Va>())
 }
 
